@@ -54,6 +54,18 @@ def main():
                    "detected": p.returncode == 1 and bool(vio), "violation_line": vio[:1],
                    "summary": out[-1] if out else "", "wall_s": round(time.time() - t0, 1),
                    "mode": "in-repo" if in_repo else "scratch-worktree"}
+            # keep the failing input as a corpus entry (runs first in every later check)
+            if rec["detected"] and not vio[0].rstrip().endswith("no-failing-input-found"):
+                rp = vio[0].split("replay=")[1].split()[0]
+                try:
+                    payload = json.load(open(rp))
+                    if payload.get("kind") == "failing-input":
+                        cdir = os.path.join(VERIF, "corpus", pid)
+                        os.makedirs(cdir, exist_ok=True)
+                        payload["origin"] = "seeded change " + os.path.basename(sdir)
+                        json.dump(payload, open(os.path.join(cdir, os.path.basename(sdir) + ".json"), "w"), indent=1, default=str)
+                except Exception as e:
+                    print("corpus copy failed:", e, file=sys.stderr)
             print(json.dumps(rec))
             if p.returncode not in (0, 1):
                 print(p.stderr[-2000:], file=sys.stderr)
